@@ -537,6 +537,26 @@ def oracle_projection(case):
     if not relv(proj[1:nn - 1 + 0], sb[1:nn - 1 + 0], 1e-9):
         fails.append({'what': 'expected SFS of n-1 samples is not the hypergeometric down-projection of that of n samples',
                       'n': nn, 'projected': proj[1:nn - 1].tolist(), 'observed': sb[1:nn - 1].tolist()})
+    # asymmetric history: the larger sample is first asked for a moment with an end time just beyond the first change (and one
+    # beyond the last), THEN for its mean spectrum; the smaller one is fresh
+    bs_ = sorted({float(t) for dd in (spec.get('pop_sizes') or {}).values() if isinstance(dd, dict) for t in dd} - {0.0})
+    if bs_:
+        a2 = mk(nn)
+        for et in (bs_[0] * 1.25, bs_[-1] * 2.0 + 0.5):
+            if et < float(spec['end_time']):
+                a2.sfs.moment(1, end_time=et)
+                a2.tree_height.moment(1, end_time=et)
+        sa2 = a2.sfs.mean.data
+        proj2 = np.zeros(nn)
+        for j in range(1, nn):
+            proj2[j] = (nn - j) / nn * sa2[j] + (j + 1) / nn * (sa2[j + 1] if j + 1 <= nn - 1 else 0.0)
+        n += 2
+        if not relv(proj2[1:nn - 1], sb[1:nn - 1], 1e-9):
+            fails.append({'what': 'expected SFS of n-1 samples is not the down-projection of that of n samples when the larger sample was asked for windowed moments first',
+                          'n': nn, 'projected': proj2[1:nn - 1].tolist(), 'observed': sb[1:nn - 1].tolist()})
+        if a2.tree_height.mean < b.tree_height.mean * (1 - 1e-9) - 1e-12:
+            fails.append({'what': 'expected tree height decreases when a sample is added (larger sample asked for windowed moments first)', 'n': nn,
+                          'H(n-1)': b.tree_height.mean, 'H(n)': a2.tree_height.mean})
     n += 2
     if b.tree_height.mean > a.tree_height.mean * (1 + 1e-9) + 1e-12:
         fails.append({'what': 'expected tree height decreases when a sample is added', 'n': nn,
@@ -616,6 +636,18 @@ def oracle_routes(case):
             acc = np.asarray(c.accumulate(k_, grid)).ravel()
             for g_, a_ in zip(grid, acc):
                 checks.append((f'accumulate(k={k_}) on the grid {grid} at {g_} vs moment(end_time={g_})', float(a_), d.moment(k_, end_time=g_), 1e-10))
+    # two loci: the documented per-locus marginals are inspected FIRST, then lineage-count rewards are asked of the same object
+    # (linearity: L3 = 2 H - TotH and L3 + L4 = H state by state for n = 2; same value as a fresh object)
+    if case.get('two_locus_history'):
+        mk2 = lambda: pg.Coalescent(n=2, loci=2, recombination_rate=case['two_locus_history'], parallelize=False)
+        l3, l4 = R.LineageReward(3), R.LineageReward(4)
+        fresh2, used2 = mk2(), mk2()
+        _ = [used2.total_branch_length.loci[i].mean for i in range(2)], used2.total_branch_length.loci.cov, used2.tree_height.loci.cov
+        h_, th_ = used2.moment(1, (R.TreeHeightReward(),)), used2.moment(1, (R.TotalTreeHeightReward(),))
+        checks.append(('two loci: E[L3] after the per-locus marginals = 2 E[H] - E[TotH]', used2.moment(1, (l3,)), 2 * h_ - th_, 1e-9))
+        checks.append(('two loci: E[L3 + L4] after the per-locus marginals = E[H]', used2.moment(1, (R.SumReward([l3, l4]),)), used2.tree_height.mean, 1e-9))
+        checks.append(('two loci: E[L3] after the per-locus marginals vs a fresh object', used2.moment(1, (l3,)), fresh2.moment(1, (l3,)), 1e-12))
+        checks.append(('two loci: Var[L3] after the per-locus marginals vs a fresh object', used2.moment(2, (l3, l3)), fresh2.moment(2, (l3, l3)), 1e-12))
     # reward tuples
     rs = [mk_reward(r) for r in case['rewards']]
     k = len(rs)
